@@ -916,6 +916,120 @@ example :
     ∧ pmrX.movePropagates = false ∧ seRgbX.movePropagates = true := by
   decide +kernel
 
+/-- recreate that has to build a temporary (existing storage too small) and whose allocation / element construction throws: every other image is
+    untouched and the target keeps its block, recorded size, allocator, dimensions, view and pixels -- ONLY `_align_in_bytes` already holds the new
+    alignment (the defect of C10_recreate_throw_witness, stated exactly); after bad_alloc heap and allocator log are untouched -/
+theorem C10_recreate_throw_keeps_image (c : Cfg) (w : World) (s W H al : Nat) (fill alloc : Option Nat) (v : Nat) (o : Org) (i : Img)
+    (ho : c.orgOf s = some o) (hs : w.imgs s = some i) (hlt : i.allocated < o.needed al W H)
+    (hf : (step c w (.recreate s W H al fill alloc v)).2 = .badAlloc ∨ (step c w (.recreate s W H al fill alloc v)).2 = .ctorThrow) :
+    (∀ x, x ≠ s → (step c w (.recreate s W H al fill alloc v)).1.imgs x = w.imgs x) ∧
+    (step c w (.recreate s W H al fill alloc v)).1.imgs s = some { i with align := al } ∧
+    ((step c w (.recreate s W H al fill alloc v)).2 = .badAlloc →
+      (step c w (.recreate s W H al fill alloc v)).1.heap = w.heap ∧ (step c w (.recreate s W H al fill alloc v)).1.log = w.log) := by
+  simp only [step, ho, stepRec, hs] at hf ⊢
+  split
+  · rename_i he; rw [if_pos he] at hf; simp at hf
+  · rename_i he; rw [if_neg he] at hf
+    have hnge : ¬ i.allocated ≥ o.needed al W H := by omega
+    rw [if_neg hnge] at hf ⊢
+    have e1 := andThen_throw _ _ (fun _ => rfl) hf
+    rw [e1] at hf ⊢
+    have e2 := swapWithTmp_throw c o _ s hf
+    rw [e2] at hf ⊢
+    have hi := pCtor_fail_imgs c o (w.setImg s (some { i with align := al })) tmpSlot (Img.fresh al (tmpTag c alloc)) W H
+      (List.replicate (W * H) (fill.getD 0)) none (by rcases hf with hf | hf <;> rw [hf] <;> intro x <;> cases x)
+    refine ⟨fun x hx => by rw [hi]; simp [hx], by rw [hi]; simp, fun hb => ?_⟩
+    exact (pCtor_badAlloc _ _ _ _ _ _ _ _ _ hb).2
+
+example :
+    (step seRgbX (run seRgbX (World.init (some 1) none) [.dims 0 0 0 3 2 7]) (.recreate 0 8 8 16 none none 3)).2 = .badAlloc := by
+  decide +kernel
+
+/-- the catch(...) of allocate_and_default_construct / allocate_and_fill / allocate_and_copy: a constructor whose element construction throws
+    releases the allocation it made at once -- the printed log gains exactly `alloc b n t` followed by `dealloc b n t` (same block, same size, same
+    allocator), or nothing at all when no byte was needed; no image changes -/
+theorem C10_ctor_throw_releases (c : Cfg) (o : Org) (w : World) (s : Nat) (img0 : Img) (W H : Nat) (content : List Nat) (src : Option (Nat × Nat))
+    (hf : (pCtor c o w s img0 W H content src).2 = .ctorThrow) :
+    (pCtor c o w s img0 W H content src).1.imgs = w.imgs ∧
+    ((pCtor c o w s img0 W H content src).1.log = w.log ∨
+     (pCtor c o w s img0 W H content src).1.log =
+       Event.dealloc w.heap.length (o.needed img0.align W H) img0.tag :: Event.alloc w.heap.length (o.needed img0.align W H) img0.tag :: w.log) :=
+  ⟨pCtor_fail_imgs c o w s img0 W H content src (by rw [hf]; intro e; cases e), pCtor_ctorThrow_log c o w s img0 W H content src hf⟩
+
+example : (pCtor { pocma := false, pocs := false, empty := true, ntags := 0, ndebug := false, org := { mstep := 4, b2m := 1, chans := 1, planar := false, nontrivial := true, pixel := false }, porg := none }
+             { mstep := 4, b2m := 1, chans := 1, planar := false, nontrivial := true, pixel := false } (World.init none (some 3)) 0 (Img.fresh 0 0) 3 2 (List.replicate 6 5) none).2 = .ctorThrow := by
+  decide +kernel
+
+/-! ### create_view: the view lies inside the allocation -/
+
+/-- THE VIEW LIES INSIDE THE ALLOCATION (create_view over the generated size formulas): whatever address `addr` the allocator returned, the bytes
+    skipped to align the first pixel plus the bytes of all `H` rows (of all planes) of the padded row size do not exceed
+    `total_allocated_size_in_bytes` -- for every organisation, alignment and dimensions without size_t wrap -/
+theorem C10_view_inside_allocation (o : Org) (al W H addr : Nat) (hs : SmallDims o al W H) (haddr : addr + al < 18446744073709551616) :
+    (alignOff addr al : Int) + ((o.rowSize al W : Int) * H * (if o.planar then o.chans else 1) + o.b2m - 1) / o.b2m ≤ (o.needed al W H : Int) := by
+  obtain ⟨hm, hc, hb, hb8, hfit, hfitr⟩ := hs
+  have hrow := C10_row_size_spec (W : Int) (al : Int) (o.mstep : Int) (o.b2m : Int) (by omega) (by omega) (by omega) (by omega)
+    (by have h := Int.ofNat_lt.mpr hfitr; simp only [Int.natCast_add, Int.natCast_mul] at h; omega)
+  have hwm : (0 : Int) ≤ (W : Int) * o.mstep := Int.mul_nonneg (Int.natCast_nonneg _) (Int.natCast_nonneg _)
+  have hab : (0 : Int) ≤ (al : Int) * o.b2m := Int.mul_nonneg (Int.natCast_nonneg _) (Int.natCast_nonneg _)
+  have hr0 : (W : Int) * o.mstep ≤ row_size W al o.mstep o.b2m ∧ row_size W al o.mstep o.b2m ≤ (W : Int) * o.mstep + al * o.b2m := by
+    by_cases ha : (al : Int) = 0
+    · have := hrow.1 ha; rw [this]; omega
+    · have := hrow.2 (by omega); omega
+  have hrnn : (0 : Int) ≤ row_size W al o.mstep o.b2m := by omega
+  have hrhle : row_size W al o.mstep o.b2m * H ≤ ((W : Int) * o.mstep + al * o.b2m) * H :=
+    Int.mul_le_mul_of_nonneg_right hr0.2 (by omega)
+  have hrh0 : (0 : Int) ≤ row_size W al o.mstep o.b2m * H := Int.mul_nonneg hrnn (by omega)
+  have hfitI : (((W : Int) * o.mstep + al * o.b2m) * H * o.chans + 8 + al < 18446744073709551616) := by
+    have h := Int.ofNat_lt.mpr hfit; simp only [Int.natCast_add, Int.natCast_mul] at h; omega
+  have hc1 : (1 : Int) ≤ o.chans := by omega
+  have hnn : (0 : Int) ≤ ((W : Int) * o.mstep + al * o.b2m) * H := Int.mul_nonneg (by omega) (Int.natCast_nonneg _)
+  have hbig : ((W : Int) * o.mstep + al * o.b2m) * H ≤ ((W : Int) * o.mstep + al * o.b2m) * H * o.chans := by
+    have := Int.mul_le_mul_of_nonneg_left hc1 hnn
+    simpa using this
+  -- the offset of the first pixel
+  have hoff : (alignOff addr al : Int) ≤ (if (al : Int) > 0 then (al : Int) - 1 else 0) := by
+    unfold alignOff
+    by_cases ha : al > 0
+    · have := C10_first_pixel_offset (addr : Int) (al : Int) (by omega) (by omega) (by omega)
+      simp only [ha, if_true]
+      have hpos : (al : Int) > 0 := by omega
+      simp only [hpos, if_true]
+      omega
+    · have : ¬ (al : Int) > 0 := by omega
+      rw [if_neg ha, if_neg this]; simp
+  have hrs : (o.rowSize al W : Int) = row_size W al o.mstep o.b2m := by
+    unfold Org.rowSize; exact Int.toNat_of_nonneg hrnn
+  rw [hrs]
+  unfold Org.needed
+  by_cases hp : o.planar = true
+  · simp only [hp, if_true]
+    have hrhc : row_size W al o.mstep o.b2m * H * o.chans ≤ ((W : Int) * o.mstep + al * o.b2m) * H * o.chans :=
+      Int.mul_le_mul_of_nonneg_right hrhle (by omega)
+    have hspec := C10_total_planar_spec (W : Int) (H : Int) (al : Int) (o.mstep : Int) (o.b2m : Int) (o.chans : Int) (by omega) (by omega) hrnn
+      (by omega) (by omega) (by omega) (by omega) (by omega)
+    rw [hspec]
+    have hp0 : (0 : Int) ≤ row_size W al o.mstep o.b2m * H * o.chans := Int.mul_nonneg hrh0 (by omega)
+    generalize row_size W al o.mstep o.b2m * H * o.chans = p at *
+    have hq0 : (0 : Int) ≤ (p + o.b2m - 1) / o.b2m := Int.ediv_nonneg (by omega) (by omega)
+    generalize (p + (o.b2m : Int) - 1) / (o.b2m : Int) = q at *
+    generalize (if (al : Int) > 0 then (al : Int) - 1 else 0) = sl at *
+    omega
+  · have hpf : o.planar = false := by simpa using hp
+    have h1 : ((1 : Nat) : Int) = 1 := rfl
+    simp only [hpf, Bool.false_eq_true, if_false, h1, Int.mul_one]
+    have hspec := C10_total_interleaved_spec (W : Int) (H : Int) (al : Int) (o.mstep : Int) (o.b2m : Int) (o.chans : Int) (by omega) hrnn
+      (by omega) (by omega) (by omega) (by omega)
+    rw [hspec]
+    generalize row_size W al o.mstep o.b2m * H = p at *
+    have hq0 : (0 : Int) ≤ (p + o.b2m - 1) / o.b2m := Int.ediv_nonneg (by omega) (by omega)
+    generalize (p + (o.b2m : Int) - 1) / (o.b2m : Int) = q at *
+    generalize (if (al : Int) > 0 then (al : Int) - 1 else 0) = sl at *
+    omega
+
+example : SmallDims { mstep := 3, b2m := 1, chans := 3, planar := false, nontrivial := false, pixel := true } 16 5 3 := by
+  unfold SmallDims; decide
+
 /-! ### what the current code gets wrong (machine-checked negations, replayed on the real headers by the harness) -/
 
 private def rgb8 : Org := { mstep := 3, b2m := 1, chans := 3, planar := false, nontrivial := false, pixel := true }
